@@ -121,7 +121,9 @@ impl Sim {
                 Guarded::Done(Err(what)) => {
                     self.stats.bump(&format!("recv.subscribe.{}", what.split(':').next().unwrap_or("")));
                     if pristine {
-                        self.violation("C18", "C18.clean-message-refused", "clean-subscribe-refused", format!("an untouched subscribe message of r{a} was not decoded as a subscription by r{b}: {what}"));
+                        // No property defines this outcome (C18 only forbids panics and out-of-bounds
+                        // reads): counted as an anomaly, not reported.
+                        self.anomaly(format!("an untouched subscribe message of r{a} was not decoded as a subscription by r{b}: {what}"));
                     }
                     self.note(&format!("subscribe a{a} b{b} -> {what}"));
                     return;
@@ -272,8 +274,11 @@ impl Sim {
                 break;
             }
             if !seen.insert(c.id) {
-                self.violation("C17", "C17.duplicate-sent", "push-duplicate", format!("push of r{b}: command {} appears twice in one message", short(&c.id)));
-                break;
+                // Observed on the unchanged tree (a segment reached both as a head segment and as the
+                // mid-segment prior of another needed segment is listed twice). No property forbids
+                // sending a command twice - the receiver skips what it holds - so this is counted,
+                // not reported.
+                self.stats.bump("push.duplicate_in_message");
             }
         }
         self.stats.add("push.commands_sent", ids.len() as u64);
@@ -368,7 +373,7 @@ impl Sim {
                 PushSeen::NotPush(what) => {
                     self.stats.bump(&format!("recv.push.{}", what.split(':').next().unwrap_or("")));
                     if pristine {
-                        self.violation("C18", "C18.clean-message-refused", "clean-push-refused", format!("an untouched push of r{b} was not decoded as a push by r{a}: {what}"));
+                        self.violation("C17", "C17.clean-response-refused", "clean-push-refused", format!("an untouched push of r{b} was not decoded as a push by r{a}: {what}"));
                     }
                     return;
                 }
@@ -434,6 +439,10 @@ impl Sim {
                             }
                         });
                     }
+                    if !self.found.is_empty() {
+                        // The run ends at the first finding; the model is not driven past it.
+                        return;
+                    }
                     if self.trx_exists(a, t) && !self.dead {
                         self.step_commit(a, t, None, sid % 2 == 0);
                     }
@@ -489,7 +498,7 @@ impl Sim {
             Guarded::Done(Err(what)) => {
                 self.stats.bump("recv.unsubscribe.err");
                 if pristine {
-                    self.violation("C18", "C18.clean-message-refused", "clean-unsubscribe-refused", format!("an untouched unsubscribe message was not decoded as one: {what}"));
+                    self.anomaly(format!("an untouched unsubscribe message was not decoded as one: {what}"));
                 }
             }
         }
